@@ -480,3 +480,223 @@ def accumulate_args(prog, e):
     a = e['args']
     lvs = e.get('ref_lvs') or {}
     return [a[r[0]], a[r[1]], a[r[2]], a[r[3]]], {0: lvs.get(r[0]), 1: lvs.get(r[1]), 2: lvs.get(r[2])}
+
+
+# members a constructor may leave indeterminate, with the condition that makes the member unreadable
+# (checked on the summary of that constructor, not taken on trust)
+UNREAD_MEMBERS = {
+    # vegas_chkpt::bins_ is read only by dimensions() when `pdf_` is empty; a constructor that stores a
+    # grid in pdf_ never gets there
+    ('hep::vegas_chkpt', 'bins_'): lambda this: _known_nonempty(T.size(T.fld(this, 'pdf_'))),
+}
+
+
+def _known_nonempty(sz):
+    if T.is_num(sz):
+        return sz[1] >= 1
+    if isinstance(sz, tuple) and sz and sz[0] == 'ite':
+        return _known_nonempty(sz[2]) and _known_nonempty(sz[3])
+    if isinstance(sz, tuple) and sz and sz[0] == '+':
+        def nn(t):
+            return (T.is_num(t) and t[1] >= 0) or (isinstance(t, tuple) and t and t[0] == 'size')
+        return (nn(sz[1]) and _known_nonempty(sz[2])) or (_known_nonempty(sz[1]) and nn(sz[2]))
+    return False
+
+
+def members_initialised(ctx, rule, classes, minimum=1):
+    """Every user-written constructor of the listed class templates leaves no data member indeterminate:
+    a member of scalar type (or an array of scalars) without an initialiser holds an indeterminate value,
+    and whatever is computed from it - a sum that does not start at zero, a size, a mode - is undefined.
+    The constructor is summarised (base and delegated constructors inlined) and the final value of every
+    own member is inspected."""
+    p = ctx.prog
+    n = 0
+    for base in classes:
+        short_ = base.split('::')[-1]
+        for c in p.find('%s::%s' % (base, short_)):
+            if c.is_implicit or c.record is None or getattr(c, 'kind', None) != 'ctor':
+                continue
+            n += 1
+            ctx.analysed(c)
+
+            def r(c=c, base=base):
+                s, ex = summarise(p, c)
+                bad = []
+                for fl in c.record.fields:
+                    v = T.fld(s.this, fl['name'])
+                    if any(isinstance(t, tuple) and t and t[0] == 'undef' for t in T.subterms(v)):
+                        exempt = UNREAD_MEMBERS.get((base, fl['name']))
+                        if exempt is not None and exempt(s.this):
+                            continue
+                        bad.append(fl['name'])
+                if bad:
+                    ctx.violation(rule, fsite(c), 'the constructor leaves %s indeterminate (no initialiser, not '
+                                  'assigned in the body): whatever is computed from it is undefined'
+                                  % ', '.join(bad), {'members': bad,
+                                                     'parameters': [q.type for q in c.params]})
+                else:
+                    ctx.holds(rule, fsite(c), 'every data member is initialised (%d members)'
+                              % len(c.record.fields))
+            ctx.guard(rule, fsite(c), r)
+    ctx.count('constructors checked for indeterminate members (%s)' % rule, n, minimum)
+
+
+FLOAT_TYPES = ('float', 'double', 'long double')
+# functions that compute in another floating-point type on purpose
+OTHER_PRECISION_OK = {
+    'hep::random_number_usage': 'mirrors the computation of std::generate_canonical, which the standard specifies in '
+                                'long double',
+}
+
+
+def single_precision(ctx, rule, prefixes, minimum=1):
+    """All arithmetic of the listed functions happens in the numeric type T of the instantiation: no
+    sub-expression, variable, call result or template argument deduced from a literal has another
+    floating-point type (`std::accumulate(b, e, 0.0)` sums in double whatever T is, `x * 0.5` promotes a float,
+    an unqualified math call may pick the double overload).  Literals themselves and the `long double` second
+    argument of nexttoward are the only exceptions.  Decided on the typed syntax tree of every listed function in
+    each analysed instantiation (float, double, long double)."""
+    p = ctx.prog
+    funcs = []
+    for name, fs in p.by_name.items():
+        if any(name == pre or (pre.endswith('::') and name.startswith(pre)) for pre in prefixes):
+            funcs += [f for f in fs if f.body is not None and not f.is_pattern]
+    n = 0
+    for f in funcs:
+        if strip_targs(f.qualname) in OTHER_PRECISION_OK:
+            continue
+        n += 1
+        ctx.analysed(f)
+
+        def r(f=f):
+            bad = []
+            stack = [(f.body, None)]
+            while stack:
+                nd, parent = stack.pop()
+                t = ir.strip_cvref(nd.ty or '') if isinstance(nd.ty, str) else ''
+                if t in FLOAT_TYPES and t != p.numeric and nd.op != 'lit':
+                    in_nexttoward = parent is not None and parent.op == 'call' and \
+                        'nexttoward' in (parent.a.get('name') or '') and t == 'long double'
+                    if not in_nexttoward:
+                        bad.append(nd)
+                for c in nd.k:
+                    if isinstance(c, ir.N):
+                        stack.append((c, nd))
+            if bad:
+                b = min(bad, key=lambda x: (x.line or 0))
+                ctx.violation(rule, '%s:%s' % (b.where(), strip_targs(f.qualname).replace('hep::', '')),
+                              'an expression of type %s in the instantiation for T = %s: this part is computed with the '
+                              'precision / range of another floating-point type (%d such expressions in this function)'
+                              % (ir.strip_cvref(b.ty), p.numeric, len(bad)), {'expression': ir.show(b)[:160]})
+            else:
+                ctx.holds(rule, fsite(f), 'every floating-point expression has type T = %s' % p.numeric)
+        ctx.guard(rule, fsite(f), r)
+    ctx.count('functions checked for a single floating-point type (%s)' % rule, n, minimum)
+
+
+def no_static_state(ctx, rule, prefixes=('hep::',), minimum=20):
+    """No function of the library keeps state in a function-local `static` variable that is initialised from
+    its arguments: such a variable is initialised by the first call in the process and silently reused by every
+    later call (the second iteration, a resumed run, another integration), which then computes with the first
+    call's data.  A static initialised from constants only is harmless.  Decided on the syntax tree of every
+    instantiated function whose qualified name starts with one of the prefixes."""
+    p = ctx.prog
+    n = 0
+    bad = []
+    for name, fs in p.by_name.items():
+        if not any(name.startswith(pre) for pre in prefixes):
+            continue
+        for f in fs:
+            if f.body is None or f.is_pattern:
+                continue
+            n += 1
+            for nd in f.body.walk():
+                if nd.op == 'decl' and nd.a.get('static'):
+                    dyn = any(x.op in ('var', 'this', 'mem') for k_ in nd.k if isinstance(k_, ir.N) for x in k_.walk())
+                    if dyn:
+                        bad.append((f, nd))
+    ctx.count('functions scanned for static local state (%s)' % rule, n, minimum)
+    seen = set()
+    for f, nd in bad:
+        key = (strip_targs(f.qualname), nd.where())
+        if key in seen:
+            continue
+        seen.add(key)
+        ctx.violation(rule, '%s:%s' % (nd.where(), strip_targs(f.qualname).replace('hep::', '')),
+                      'the function-local static `%s` is initialised from the arguments of the first call and reused '
+                      'by every later call: later iterations / runs compute with stale data' % nd.a.get('name'),
+                      {'declaration': ir.show(nd)[:200]})
+    if not bad:
+        ctx.holds(rule, 'include/hep/mc:%d functions' % n, 'no function-local static initialised from run-time values')
+
+
+def no_hiding_in_hierarchy(ctx, rule, minimum=3):
+    """Checkpoints are handed around through references to their base classes (a callback instantiated on
+    `vegas_chkpt<T>` receives a `chkpt_with_rng<Engine, vegas_chkpt<T>>`): a member function that a derived
+    class re-declares with the same parameters must be virtual in the base, otherwise the call through the base
+    runs the base version and the derived part of the object (the generators) is skipped.  For every
+    instantiated library class with bases, every own non-static member function is compared with the member
+    functions of the same name and parameter types in all transitive bases."""
+    p = ctx.prog
+
+    def all_bases(r, seen):
+        for b in r.bases:
+            br = p.record_of_type(b)
+            if br is not None and br.id not in seen:
+                seen.add(br.id)
+                yield br
+                for x in all_bases(br, seen):
+                    yield x
+    n = 0
+    bad = []
+    for r in p.records.values():
+        if r.is_pattern or not (r.qualname or '').startswith('hep::') or not r.bases:
+            continue
+        bases = list(all_bases(r, set()))
+        for m in r.methods:
+            if m.kind != 'method' or m.is_static or m.is_implicit or m.name.startswith('operator='):
+                continue
+            for br in bases:
+                for bm in br.methods:
+                    if bm.kind == 'method' and bm.name == m.name and not bm.is_static and \
+                            [q.type for q in bm.params] == [q.type for q in m.params]:
+                        n += 1
+                        if not bm.is_virtual:
+                            bad.append((r, m, br, bm))
+    ctx.count('member functions re-declared in a derived class (%s)' % rule, n, minimum)
+    seen = set()
+    for r, m, br, bm in bad:
+        key = (strip_targs(r.qualname), m.name, strip_targs(br.qualname))
+        if key in seen:
+            continue
+        seen.add(key)
+        ctx.violation(rule, '%s:%s::%s' % (m.where(), strip_targs(r.qualname).replace('hep::', ''), m.name),
+                      '%s::%s hides %s::%s, which is not virtual: a call through a reference to the base class runs '
+                      'the base version only' % (strip_targs(r.qualname), m.name, strip_targs(br.qualname), bm.name),
+                      {'base_declaration': bm.where()})
+    if not bad:
+        ctx.holds(rule, 'include/hep/mc:%d overrides' % n, 'every member function re-declared in a derived class '
+                  'overrides a virtual function')
+
+
+def by_reference_parameters(ctx, rule, names, minimum=1):
+    """The listed functions receive their checkpoint / result arguments by reference: a by-value parameter of a
+    base-class type copies only the base part of the object that is passed (slicing), and everything the
+    derived class adds - the random number generators of chkpt_with_rng - is gone."""
+    p = ctx.prog
+    n = 0
+    for nm in names:
+        for f in p.find(nm):
+            for q in f.params:
+                t = (q.type or '').strip()
+                rec = p.record_of_type(ir.strip_cvref(t))
+                if rec is None or not (rec.qualname or '').startswith('hep::'):
+                    continue
+                n += 1
+                if t.endswith('&'):
+                    ctx.holds(rule, fsite(f), 'parameter %s is taken by reference' % q.name)
+                else:
+                    ctx.violation(rule, fsite(f), 'parameter %s of class type %s is taken by value: an argument of '
+                                  'a derived type is sliced (a checkpoint loses its generators before it is '
+                                  'serialised)' % (q.name, ir.strip_cvref(t)[:80]))
+    ctx.count('class-type parameters (%s)' % rule, n, minimum)
